@@ -79,7 +79,7 @@ def install_ds(R):
     """results_to_ds over an abstract model of xarray.Dataset (coords / data_vars / attrs maps; dims = dims of the variables)."""
     S = R.spec
     AX = R.axioms
-    R.fields["XrDataset"] = {"coords": "V", "data_vars": "V", "attrs": "V", "dims": "V"}
+    R.fields["XrDataset"] = {"coords": "V", "data_vars": "V", "attrs": "V", "dims": "V", "variables": "V"}
     InDims = z3.Function("InDims", V, V, z3.BoolSort())     # k is a dimension of some variable of the data_vars map
     dimwit = z3.Function("dim_wit", V, V, V)
     dv_, k_, n_ = z3.Const("dv!", V), z3.Const("k!", V), z3.Const("n!", V)
